@@ -406,7 +406,31 @@ def compare(it, st, got, exp):
     g = it.deref_all(st, got)
     p = numeric(it, st, g)
     if not (p - exp).is_zero():
-        raise Mismatch("returned %r, definition gives %r" % (p, exp))
+        # the case under comparison may have been split further on the oracle's side (an operand known to be 0 there):
+        # apply what is known about the symbols to the returned term as well
+        try:
+            p2 = p.subst(st.subst)
+            # uninterpreted terms carry their arguments in their name (`pow(A,B)`): rewrite those too for symbols known to be
+            # constants
+            consts = {k_: repr(v_) for k_, v_ in st.subst.items() if hasattr(v_, "is_const") and v_.is_const()}
+            if consts:
+                import re as _re
+
+                ren = {}
+                for sname in p2.symbols():
+                    if "(" not in sname:
+                        continue
+                    new = sname
+                    for k_, v_ in consts.items():
+                        new = _re.sub(r"(?<![A-Za-z0-9_])%s(?![A-Za-z0-9_(])" % _re.escape(k_), v_, new)
+                    if new != sname:
+                        ren[sname] = Poly.sym(new)
+                if ren:
+                    p2 = p2.subst(ren)
+        except Exception:
+            p2 = p
+        if not (p2 - exp).is_zero():
+            raise Mismatch("returned %r, definition gives %r" % (p, exp))
     # canonical sign of a BigInt result
     if g[0] == "struct" and g[1] == "bigint::BigInt":
         s, d = g[2]["sign"], g[2]["data"]
@@ -536,8 +560,13 @@ def run_targets(ctx, res, targets, rule, floor, clause, config="all"):
         cases += nc
         key = b.path
         if und:
-            res.undecided.append({"target": key, "reason": und})
-            res.fail(Finding(rule + "-undecided", key, "the abstract interpreter cannot decide this body (%s); its agreement with the definition (%s) is not shown" % (und, what), b))
+            # a construct outside the interpreter's language (digit-level code, a std helper without a model): the body is neither
+            # shown to agree with the definition nor refuted.  Reported, not alarmed: an alarm here would fire on every
+            # behaviour-preserving rewrite that leaves the modelled language (third and fourth neutral rounds); the price is
+            # that a defect hidden behind such a construct is not reported by this rule (DESIGN 12.4)
+            res.undecided.append({"target": key, "rule": rule, "reason": und})
+            res.note("%s-undecided: %s: the abstract interpreter cannot decide this body (%s); its agreement with the definition (%s) is not shown" % (rule, key, und, what))
+            res.count(rule + " undecided targets")
         elif fails:
             res.fail(Finding(rule, key, "result differs from the definition (%s) in %d abstract case(s); first: %s" % (what, len(fails), fails[0][:300]), b, detail={"cases": fails[:12]}))
         else:
